@@ -248,6 +248,30 @@ Theorem C03_code_block_ends_nonblank :
 Proof. exact code_block_ends_nonblank. Qed.
 Print Assumptions C03_code_block_ends_nonblank.
 
+(* the setext heading rule: its opening token carries the map [sl, nl + 1) where nl is the underline - EVERY line of that range
+   is non-blank, in particular the last one (the underline); the inline token's map [sl, nl) stops before the underline *)
+From MD Require Import Lemmas.TableRows.
+Theorem C03_setext_heading_ends_nonblank :
+  forall cfg term, term_fr term -> forall st sl el st',
+  r_lheading cfg term st sl el false = Ok (true, st') -> is_empty st sl = Ok false ->
+  exists nl op inl cl,
+    b_tokens st' = b_tokens st ++ [op; inl; cl] /\ tmap op = Some (sl, nl + 1) /\ tmap inl = Some (sl, nl) /\ b_line st' = nl + 1
+    /\ sl < nl /\ nl < el /\ (forall l, sl <= l < nl + 1 -> is_empty st l = Ok false).
+Proof. exact setext_heading_ends_nonblank. Qed.
+Print Assumptions C03_setext_heading_ends_nonblank.
+
+(* table body rows: every tr_open token the table rule's row loop pushes carries a one-line map [l, l + 1) on a non-blank line l
+   (the loop stops at the first line that is empty once trimmed); from any state whose line tables are well formed (TI: what
+   StateBlock builds and every rule keeps) and any terminator callback that only answers *)
+Theorem C03_table_rows_end_nonblank :
+  forall cfg term, term_fr term -> forall fuel st aligns sl el r tb' st',
+  TI st -> 0 <= sl ->
+  table_rows cfg fuel term st aligns sl (sl + 2) el None = Ok (r, tb', st') ->
+  exists seg, b_tokens st' = b_tokens st ++ seg
+    /\ Forall (fun t => ttype t = s_tr_open -> exists l, tmap t = Some (l, l + 1) /\ is_empty st l = Ok false) seg.
+Proof. exact table_body_rows_nonblank. Qed.
+Print Assumptions C03_table_rows_end_nonblank.
+
 (* ---- containment in the enclosing container's own map ------------------------------------------------------ *)
 (* the block quote rule, with any nested block loop that meets the loop's contract (rec_c: proved for ParserBlock.tokenize
    at every depth, C03_nested_tokenize_maps) and any terminator callback that only answers: the blockquote_open token carries
